@@ -47,6 +47,7 @@ def jobs(tier):
         out.append(dict({'ob': ob, 'query_timeout_s': 120 if q else 900, 'splits': [2, 4]}, **kw))
     add('identity', cap=4 if q else 6, bounds='|got|=|want|<=%d, 5 flags symbolic' % (4 if q else 6))
     add('identity_with_removable_tokens', cap=1 if q else 2, splits=[3, 6, 9], bounds='text = L + token + R with token in {<BLANKLINE> line, ANSI colour code, u-prefix, b-prefix, "..."}; |L|,|R|<=%d over {a, space, newline, dot}, 5 flags symbolic' % (1 if q else 2))
+    add('removals_compose', cap=2, splits=[3, 6, 9], bounds='got = [ANSI colour][u|b prefix] quote text quote [ANSI reset], want = quote text quote; text <=2 characters over {a, c, space}; 5 flags symbolic (forked)')
     add('strict_exact', cap=4 if q else 6, bounds='|got|,|want|<=%d, all leniencies off' % (4 if q else 6))
     for f in LENIENT:
         # quick: the other leniencies off; thorough: ELLIPSIS / NORMALIZE_WHITESPACE of the others symbolic too
@@ -160,6 +161,45 @@ class IdentityTokens(Base):
         t = TOKENS[m.eval(self.tok, model_completion=True).as_long()]
         txt = self.G.concrete(m) + t + self.W.concrete(m)
         return {'got': txt, 'want': txt, 'flags': self.flagvals(m), 'ob': 'identity'}
+
+
+class Compose(Base):
+    """the removals compose: a colour code directly in front of a prefixed literal"""
+    witnesses = ('ansi_then_prefix',)
+
+    def __init__(self, job):
+        # (no prefix letters inside the literal: a one-letter string 'b' / 'u' is itself mistaken for a prefix by the
+        # regexes - observed quirk, DESIGN.md section 7)
+        self.setup(job, job['cap'], 1, minw=0, alphabet='ac ')
+        self.a = z3.Bool('ansi_before')
+        self.r = z3.Bool('ansi_reset_after')
+        self.p = z3.Int('prefix_letter')
+        self.q = z3.Bool('double_quote')
+        self.base += [self.p >= 0, self.p <= 2]
+
+    def run(self, ex):
+        from sea.core import SymBool, SymInt
+        L = self.G.concretize()
+        a = '\x1b[31m' if bool(SymBool(self.a)) else ''
+        r = '\x1b[0m' if bool(SymBool(self.r)) else ''
+        pfx = ['', 'u', 'b'][int(SymInt(self.p))]
+        q = '"' if bool(SymBool(self.q)) else "'"
+        fl = {k: bool(SymBool(v)) for k, v in self.fl.items()}
+        got = a + pfx + q + L + q + r
+        want = q + L + q
+        res = bool(self.checker.check_output(got, want, self.state(**fl)))
+        if a and pfx:
+            ex.witness('ansi_then_prefix', True)
+        self._last = (got, want)
+        return zbool(res)
+
+    def describe(self, m):
+        L = self.G.concrete(m)
+        a = '\x1b[31m' if z3.is_true(m.eval(self.a, model_completion=True)) else ''
+        r = '\x1b[0m' if z3.is_true(m.eval(self.r, model_completion=True)) else ''
+        pfx = ['', 'u', 'b'][m.eval(self.p, model_completion=True).as_long()]
+        q = '"' if z3.is_true(m.eval(self.q, model_completion=True)) else "'"
+        return {'got': a + pfx + q + L + q + r, 'want': q + L + q, 'flags': self.flagvals(m), 'ob': 'removals_compose'}
 
 
 class Strict(Base):
@@ -285,6 +325,8 @@ def build(job):
         return Identity(job)
     if ob == 'identity_with_removable_tokens':
         return IdentityTokens(job)
+    if ob == 'removals_compose':
+        return Compose(job)
     if ob == 'strict_exact':
         return Strict(job)
     if ob.startswith('mono_'):
@@ -352,6 +394,10 @@ def replay(job, cex):
     if ob == 'identity':
         r = _real(got, got, flags)
         return {'reproduced': not r, 'detail': 'check_output(%r, same text, %r) = %s' % (got, flags, r), 'signature': 'C05:identity'}
+    if ob == 'removals_compose':
+        r = _real(got, want, flags)
+        return {'reproduced': not r, 'detail': 'check_output(%r, %r, %r) = %s: colour code + prefix letter + quotes are all removable' % (got, want, flags, r),
+                'signature': 'C05:removals-compose'}
     if ob == 'strict_exact':
         flags.update(ELLIPSIS=False, NORMALIZE_WHITESPACE=False, IGNORE_WHITESPACE=False, NORMALIZE_REPR=False, DONT_ACCEPT_BLANKLINE=True)
         r = _real(got, want, flags)
